@@ -1,6 +1,7 @@
 package main
 
-// genAsm translates dec_arith_amd64.s into Lean (Gen/Asm.lean).
+// genAsm translates dec_arith_amd64.s into Lean (Gen/Asm.lean); genAsmBig translates the routines
+// of arith_amd64.s that the library uses (`divWVW`) into Gen/AsmBig.lean, same scheme.
 //
 // Scheme (see ASM_NOTES.md): the file is parsed line by line (Plan-9 amd64 syntax, the subset
 // listed in `semantics` below), every TEXT routine is split into basic blocks, and every basic
@@ -283,10 +284,14 @@ func isIdent(s string) bool {
 	return true
 }
 
-// parseAsm reads the file into routines of basic blocks.
-func parseAsm(src string) ([]*routine, map[string]bool, error) {
+// parseAsm reads the file into routines of basic blocks. With only != nil, the TEXT routines that
+// are not in the set are passed over (their names are returned in skipped, nothing of their bodies
+// is looked at, and their mnemonics are not recorded in used).
+func parseAsm(src string, only map[string]bool) ([]*routine, map[string]bool, []string, error) {
 	defines := map[string]string{}
 	used := map[string]bool{}
+	var skipped []string
+	skipping := false
 	type item struct {
 		label string
 		ins   *instr
@@ -413,38 +418,47 @@ func parseAsm(src string) ([]*routine, map[string]bool, error) {
 			case "#include":
 			case "#define":
 				if len(f) != 3 {
-					return nil, nil, &asmErr{"-", lineNo, "unsupported #define"}
+					return nil, nil, nil, &asmErr{"-", lineNo, "unsupported #define"}
 				}
 				defines[f[1]] = f[2]
 			default:
-				return nil, nil, &asmErr{"-", lineNo, "unsupported preprocessor line " + f[0]}
+				return nil, nil, nil, &asmErr{"-", lineNo, "unsupported preprocessor line " + f[0]}
 			}
 			continue
 		}
 		if strings.HasPrefix(line, "TEXT") {
 			if err := flush(); err != nil {
-				return nil, nil, err
+				return nil, nil, nil, err
 			}
 			f := strings.Split(strings.TrimSpace(line[4:]), ",")
 			sym := strings.TrimSpace(f[0])
 			if !strings.HasSuffix(sym, "(SB)") {
-				return nil, nil, &asmErr{"-", lineNo, "bad TEXT line"}
+				return nil, nil, nil, &asmErr{"-", lineNo, "bad TEXT line"}
 			}
 			name := strings.TrimPrefix(strings.TrimSuffix(sym, "(SB)"), "·")
 			if !isIdent(name) {
-				return nil, nil, &asmErr{name, lineNo, "bad routine name"}
+				return nil, nil, nil, &asmErr{name, lineNo, "bad routine name"}
 			}
+			if only != nil && !only[name] {
+				skipped = append(skipped, name)
+				skipping = true
+				continue
+			}
+			skipping = false
 			// frame size must be $0 (no locals): SP-relative addressing is not modelled
 			fs := strings.TrimSpace(f[len(f)-1])
 			if !(fs == "$0" || strings.HasPrefix(fs, "$0-")) {
-				return nil, nil, &asmErr{name, lineNo, "non-zero frame size " + fs}
+				return nil, nil, nil, &asmErr{name, lineNo, "non-zero frame size " + fs}
 			}
 			cur = &routine{name: name, line: lineNo}
 			used["TEXT"] = true
 			continue
 		}
+		if skipping {
+			continue
+		}
 		if cur == nil {
-			return nil, nil, &asmErr{"-", lineNo, "instruction outside TEXT: " + line}
+			return nil, nil, nil, &asmErr{"-", lineNo, "instruction outside TEXT: " + line}
 		}
 		// label?
 		if i := strings.Index(line, ":"); i > 0 && isIdent(strings.TrimSpace(line[:i])) {
@@ -465,7 +479,7 @@ func parseAsm(src string) ([]*routine, map[string]bool, error) {
 			for _, os := range strings.Split(rest, ",") {
 				o, err := parseOperand(os, defines, strings.HasPrefix(mn, "J"))
 				if err != nil {
-					return nil, nil, &asmErr{cur.name, lineNo, err.Error()}
+					return nil, nil, nil, &asmErr{cur.name, lineNo, err.Error()}
 				}
 				in.ops = append(in.ops, o)
 			}
@@ -473,13 +487,13 @@ func parseAsm(src string) ([]*routine, map[string]bool, error) {
 		items = append(items, item{ins: in})
 	}
 	if err := flush(); err != nil {
-		return nil, nil, err
+		return nil, nil, nil, err
 	}
 	// resolve tail calls
 	byName := map[string]*routine{}
 	for _, r := range routines {
 		if byName[r.name] != nil {
-			return nil, nil, &asmErr{r.name, r.line, "duplicate routine"}
+			return nil, nil, nil, &asmErr{r.name, r.line, "duplicate routine"}
 		}
 		byName[r.name] = r
 	}
@@ -488,13 +502,13 @@ func parseAsm(src string) ([]*routine, map[string]bool, error) {
 			if strings.HasPrefix(b.target, "@") {
 				t := byName[b.target[1:]]
 				if t == nil {
-					return nil, nil, &asmErr{r.name, b.termIns.line, "tail call to unknown routine " + b.target[1:]}
+					return nil, nil, nil, &asmErr{r.name, b.termIns.line, "tail call to unknown routine " + b.target[1:]}
 				}
 				b.target = t.name + "_entry"
 			}
 		}
 	}
-	return routines, used, nil
+	return routines, used, skipped, nil
 }
 
 // ---------------------------------------------------------------------------------------------
@@ -1115,28 +1129,72 @@ func (e *emitter) block(full string) error {
 	return nil
 }
 
+// asmUnit describes one assembly source file and the generated Lean module made from it.
+type asmUnit struct {
+	file string          // source file, relative to the repository root
+	ns   string          // Lean namespace of the generated module
+	only map[string]bool // nil: every TEXT routine of the file; otherwise exactly these routines
+}
+
 func genAsm(repo string) (string, error) {
-	path := filepath.Join(repo, "dec_arith_amd64.s")
+	return genAsmUnit(repo, asmUnit{file: "dec_arith_amd64.s", ns: "Decimal.Gen.Asm"})
+}
+
+// genAsmBig translates the routines of arith_amd64.s (the math/big-derived binary kernels) that
+// the library needs: `divWVW` (named by property C07; dec.setNat calls it) and every other routine
+// of that file that non-test Go code of the package refers to (usedBodyless, computed from the
+// type-checked package). The routines that are passed over are listed in the generated module.
+func genAsmBig(repo string, usedBodyless map[string]bool) (string, error) {
+	only := map[string]bool{"divWVW": true}
+	for n := range usedBodyless {
+		only[n] = true
+	}
+	return genAsmUnit(repo, asmUnit{file: "arith_amd64.s", ns: "Decimal.Gen.AsmBig", only: only})
+}
+
+func genAsmUnit(repo string, u asmUnit) (string, error) {
+	path := filepath.Join(repo, u.file)
 	data, err := os.ReadFile(path)
 	if err != nil {
 		return "", err
 	}
-	routines, used, err := parseAsm(string(data))
+	routines, used, skipped, err := parseAsm(string(data), u.only)
 	if err != nil {
 		return "", err
+	}
+	if len(routines) == 0 {
+		return "", &asmErr{"-", 0, "no routine to translate in " + u.file}
+	}
+	if u.only != nil {
+		// a requested routine that the file does not define is somebody else's (dec_arith_amd64.s) or
+		// missing; only `divWVW` is required to be here
+		found := false
+		for _, r := range routines {
+			if r.name == "divWVW" {
+				found = true
+			}
+		}
+		if !found {
+			return "", &asmErr{"divWVW", 0, "routine not found in " + u.file}
+		}
 	}
 	if err := checkFlags(routines); err != nil {
 		return "", err
 	}
 	var sb strings.Builder
-	sb.WriteString("/- GENERATED by tools/gen from dec_arith_amd64.s of db47h/decimal. Do not edit.\n\n")
+	fmt.Fprintf(&sb, "/- GENERATED by tools/gen from %s of db47h/decimal. Do not edit.\n\n", u.file)
 	sb.WriteString("   One function per basic block, `blk_<routine>_<label> : St → St × Next Lbl`, as an SSA let-chain:\n")
 	sb.WriteString("   one `let` per instruction result and per live flag; registers are Nat < 2^64 (explicit `% W`),\n")
 	sb.WriteString("   CF is a Nat (0/1), ZF/SF/OF are Bool; loads and stores go through `Mem.rd`/`Mem.wr` in program\n")
-	sb.WriteString("   order with their byte address `(base + index*8 + disp) % W`; `x+off(FP)` is `frame` at `off`. -/\n")
+	sb.WriteString("   order with their byte address `(base + index*8 + disp) % W`; `x+off(FP)` is `frame` at `off`.")
+	if u.only != nil {
+		sb.WriteString("\n\n   Only the routines that non-test Go code of the package refers to are translated (plus `divWVW`,\n")
+		sb.WriteString("   always); the other TEXT routines of the file are listed in `skipped`.")
+	}
+	sb.WriteString(" -/\n")
 	sb.WriteString("import DecimalModel.AsmSem\n\n")
 	sb.WriteString("set_option linter.unusedVariables false\n\n")
-	sb.WriteString("namespace Decimal.Gen.Asm\n")
+	fmt.Fprintf(&sb, "namespace %s\n", u.ns)
 	sb.WriteString("open Decimal.Gen (W)\nopen Decimal.Asm\n\n")
 
 	var mns []string
@@ -1233,6 +1291,17 @@ func genAsm(repo string) (string, error) {
 		}
 		fmt.Fprintf(&sb, "(%q, .%s_entry)", r.name, r.name)
 	}
-	sb.WriteString("]\n\nend Decimal.Gen.Asm\n")
+	sb.WriteString("]\n")
+	if u.only != nil {
+		sb.WriteString("\n/-- TEXT routines of the file that were NOT translated: no non-test Go code of the package refers to them -/\ndef skipped : List String := [")
+		for i, n := range skipped {
+			if i > 0 {
+				sb.WriteString(", ")
+			}
+			fmt.Fprintf(&sb, "%q", n)
+		}
+		sb.WriteString("]\n")
+	}
+	fmt.Fprintf(&sb, "\nend %s\n", u.ns)
 	return sb.String(), nil
 }
